@@ -40,6 +40,9 @@ use std::time::Duration;
 use tokio::time::Instant;
 use vh::{Ctx, Rng, fnv64, mix64};
 
+#[path = "c14/ext.rs"]
+mod ext;
+
 const MS: u128 = 1_000_000;
 /// tokio's timer wheel has 1 ms granularity: a sleep may end up to 1 ms late
 /// in virtual time. 2 ms are granted on every upper bound.
@@ -818,9 +821,34 @@ mod cdn {
     use std::io::{Read, Write};
     use std::sync::{Arc, Mutex};
 
-    pub struct Step {
-        pub status: u16,
-        pub retry_after: Option<u64>,
+    /// What the mock does with one request.
+    #[derive(Clone)]
+    pub enum Act {
+        /// status line (+ body for 2xx), optional Retry-After header value written verbatim
+        Status(u16, Option<&'static str>),
+        /// close the connection without a response head
+        CloseBeforeHeaders,
+        /// 200 with Content-Length, half of the body, then FIN / RST
+        CloseMidBody,
+        ResetMidBody,
+    }
+
+    /// The three entry points of `CdnClient` that run under the retry policy.
+    #[derive(Clone, Copy, Debug, PartialEq, Eq)]
+    pub enum Entry {
+        Download,
+        ArchiveIndex,
+        ResumeFromStart,
+    }
+
+    impl Entry {
+        fn name(self) -> &'static str {
+            match self {
+                Entry::Download => "download",
+                Entry::ArchiveIndex => "download_archive_index",
+                Entry::ResumeFromStart => "download_with_resume(None)",
+            }
+        }
     }
 
     struct Mock {
@@ -829,7 +857,16 @@ mod cdn {
         stop: Arc<std::sync::atomic::AtomicBool>,
     }
 
-    fn start_mock(script: Vec<Step>, body: Vec<u8>) -> Option<Mock> {
+    fn set_linger0(s: &std::net::TcpStream) {
+        use std::os::fd::AsRawFd;
+        let l = libc::linger { l_onoff: 1, l_linger: 0 };
+        // SAFETY: valid fd, correctly sized option value.
+        unsafe {
+            libc::setsockopt(s.as_raw_fd(), libc::SOL_SOCKET, libc::SO_LINGER, (&raw const l).cast(), std::mem::size_of::<libc::linger>() as libc::socklen_t);
+        }
+    }
+
+    fn start_mock(script: Vec<Act>, body: Vec<u8>) -> Option<Mock> {
         let listener = std::net::TcpListener::bind("127.0.0.1:0").ok()?;
         let port = listener.local_addr().ok()?.port();
         listener.set_nonblocking(true).ok()?;
@@ -842,6 +879,7 @@ mod cdn {
                     Ok((mut s, _)) => {
                         let _ = s.set_nonblocking(false);
                         let _ = s.set_read_timeout(Some(Duration::from_secs(5)));
+                        let _ = s.set_nodelay(true);
                         let mut buf = Vec::new();
                         let mut tmp = [0u8; 2048];
                         while !buf.windows(4).any(|w| w == b"\r\n\r\n") {
@@ -858,17 +896,30 @@ mod cdn {
                             g.push(std::time::Instant::now());
                             g.len() - 1
                         };
-                        let step = script.get(idx).or(script.last());
-                        let (status, ra) = step.map_or((500, None), |s| (s.status, s.retry_after));
-                        let payload: &[u8] = if status == 200 { &body } else { b"" };
-                        let mut head = format!("HTTP/1.1 {status} X\r\nContent-Length: {}\r\nConnection: close\r\n", payload.len());
-                        if let Some(ra) = ra {
-                            head.push_str(&format!("Retry-After: {ra}\r\n"));
+                        match script.get(idx).or(script.last()).cloned().unwrap_or(Act::Status(500, None)) {
+                            Act::Status(status, ra) => {
+                                let payload: &[u8] = if (200..300).contains(&status) && status != 204 { &body } else { b"" };
+                                let mut head = format!("HTTP/1.1 {status} X\r\nContent-Length: {}\r\nConnection: close\r\n", payload.len());
+                                if let Some(ra) = ra {
+                                    head.push_str(&format!("Retry-After: {ra}\r\n"));
+                                }
+                                head.push_str("\r\n");
+                                let _ = s.write_all(head.as_bytes());
+                                let _ = s.write_all(payload);
+                                let _ = s.flush();
+                            }
+                            Act::CloseBeforeHeaders => {}
+                            Act::CloseMidBody | Act::ResetMidBody => {
+                                let reset = matches!(script.get(idx).or(script.last()), Some(Act::ResetMidBody));
+                                let _ = s.write_all(format!("HTTP/1.1 200 X\r\nContent-Length: {}\r\nConnection: close\r\n\r\n", body.len()).as_bytes());
+                                let _ = s.write_all(&body[..body.len() / 2]);
+                                let _ = s.flush();
+                                std::thread::sleep(Duration::from_millis(10));
+                                if reset {
+                                    set_linger0(&s);
+                                }
+                            }
                         }
-                        head.push_str("\r\n");
-                        let _ = s.write_all(head.as_bytes());
-                        let _ = s.write_all(payload);
-                        let _ = s.flush();
                     }
                     Err(_) => std::thread::sleep(Duration::from_millis(2)),
                 }
@@ -879,33 +930,79 @@ mod cdn {
 
     struct Scenario {
         name: &'static str,
-        script: Vec<Step>,
+        script: Vec<Act>,
         /// expected number of requests (default policy: 3 retries)
         requests: usize,
         ok: bool,
-        /// lower bound on the gap between request 0 and 1 (Retry-After hint)
-        min_gap0: Option<Duration>,
+        /// lower bounds on the gaps between consecutive requests (Retry-After hints in seconds)
+        min_gaps: Vec<Option<Duration>>,
+        entry: Entry,
     }
 
     pub fn section(ctx: &Ctx) {
-        let s = |status: u16| Step { status, retry_after: None };
-        let scenarios = vec![
-            Scenario { name: "200", script: vec![s(200)], requests: 1, ok: true, min_gap0: None },
-            Scenario { name: "500x", script: vec![s(500)], requests: 4, ok: false, min_gap0: None },
-            Scenario { name: "502x", script: vec![s(502)], requests: 4, ok: false, min_gap0: None },
-            Scenario { name: "503x", script: vec![s(503)], requests: 4, ok: false, min_gap0: None },
-            Scenario { name: "504x", script: vec![s(504)], requests: 4, ok: false, min_gap0: None },
-            Scenario { name: "429x(no hint)", script: vec![s(429)], requests: 4, ok: false, min_gap0: None },
-            Scenario { name: "400", script: vec![s(400)], requests: 1, ok: false, min_gap0: None },
-            Scenario { name: "403", script: vec![s(403)], requests: 1, ok: false, min_gap0: None },
-            Scenario { name: "404", script: vec![s(404)], requests: 1, ok: false, min_gap0: None },
-            Scenario { name: "410", script: vec![s(410)], requests: 1, ok: false, min_gap0: None },
-            Scenario { name: "503,200", script: vec![s(503), s(200)], requests: 2, ok: true, min_gap0: None },
-            Scenario { name: "500,502,504,200", script: vec![s(500), s(502), s(504), s(200)], requests: 4, ok: true, min_gap0: None },
-            Scenario { name: "503,404", script: vec![s(503), s(404)], requests: 2, ok: false, min_gap0: None },
-            Scenario { name: "429+Retry-After:1,200", script: vec![Step { status: 429, retry_after: Some(1) }, s(200)], requests: 2, ok: true, min_gap0: Some(Duration::from_secs(1)) },
-            Scenario { name: "429+Retry-After:0,200", script: vec![Step { status: 429, retry_after: Some(0) }, s(200)], requests: 2, ok: true, min_gap0: Some(Duration::ZERO) },
+        let s = |status: u16| Act::Status(status, None);
+        let ra = |status: u16, v: &'static str| Act::Status(status, Some(v));
+        let sec = |n: u64| Some(Duration::from_secs(n));
+        // (name, script, expected requests, Ok?, lower bounds of the gaps)
+        let table: Vec<(&'static str, Vec<Act>, usize, bool, Vec<Option<Duration>>)> = vec![
+            ("200", vec![s(200)], 1, true, vec![]),
+            ("204", vec![s(204)], 1, true, vec![]),
+            ("500x", vec![s(500)], 4, false, vec![]),
+            ("502x", vec![s(502)], 4, false, vec![]),
+            ("503x", vec![s(503)], 4, false, vec![]),
+            ("504x", vec![s(504)], 4, false, vec![]),
+            ("501x", vec![s(501)], 4, false, vec![]),
+            ("507x", vec![s(507)], 4, false, vec![]),
+            ("599x", vec![s(599)], 4, false, vec![]),
+            ("429x(no hint)", vec![s(429)], 4, false, vec![]),
+            ("400", vec![s(400)], 1, false, vec![]),
+            ("401", vec![s(401)], 1, false, vec![]),
+            ("403", vec![s(403)], 1, false, vec![]),
+            ("404", vec![s(404)], 1, false, vec![]),
+            ("410", vec![s(410)], 1, false, vec![]),
+            ("416", vec![s(416)], 1, false, vec![]),
+            ("451", vec![s(451)], 1, false, vec![]),
+            ("503,200", vec![s(503), s(200)], 2, true, vec![]),
+            ("500,502,504,200", vec![s(500), s(502), s(504), s(200)], 4, true, vec![]),
+            ("503,404", vec![s(503), s(404)], 2, false, vec![]),
+            ("429+Retry-After:1,200", vec![ra(429, "1"), s(200)], 2, true, vec![sec(1)]),
+            ("429+Retry-After:0,200", vec![ra(429, "0"), s(200)], 2, true, vec![sec(0)]),
+            ("429+Retry-After:1,429+Retry-After:1,200", vec![ra(429, "1"), ra(429, "1"), s(200)], 3, true, vec![sec(1), sec(1)]),
+            ("503,429+Retry-After:1,200", vec![s(503), ra(429, "1"), s(200)], 3, true, vec![None, sec(1)]),
+            // hints the client does not understand (HTTP-date, garbage, negative, fraction): the statement only speaks of a hint
+            // that is "present"; whether these count is open — only the retry itself is judged
+            ("429+Retry-After:http-date,200", vec![ra(429, "Wed, 21 Oct 2065 07:28:00 GMT"), s(200)], 2, true, vec![]),
+            ("429+Retry-After:garbage,200", vec![ra(429, "soon"), s(200)], 2, true, vec![]),
+            ("429+Retry-After:-1,200", vec![ra(429, "-1"), s(200)], 2, true, vec![]),
+            ("429+Retry-After:0.5,200", vec![ra(429, "0.5"), s(200)], 2, true, vec![]),
+            // a hint on a 503 is not something the statement (or the client) attaches a wait to: retried, not timed
+            ("503+Retry-After:1,200", vec![ra(503, "1"), s(200)], 2, true, vec![]),
+            // transport failures are transient: retried like a 5xx
+            ("closed-before-headers x", vec![Act::CloseBeforeHeaders], 4, false, vec![]),
+            ("closed-mid-body x", vec![Act::CloseMidBody], 4, false, vec![]),
+            ("reset-mid-body x", vec![Act::ResetMidBody], 4, false, vec![]),
+            ("reset-mid-body,200", vec![Act::ResetMidBody, s(200)], 2, true, vec![]),
+            ("closed-before-headers,503,200", vec![Act::CloseBeforeHeaders, s(503), s(200)], 3, true, vec![]),
+            ("closed-mid-body,closed-before-headers,404", vec![Act::CloseMidBody, Act::CloseBeforeHeaders, s(404)], 3, false, vec![]),
         ];
+        // every script through `download`; the other two retry-wrapped entry points in rotation (seeded offset)
+        let rot = (ctx.seed % 3) as usize;
+        let mut scenarios: Vec<Scenario> = Vec::new();
+        for (i, (name, script, requests, ok, min_gaps)) in table.into_iter().enumerate() {
+            scenarios.push(Scenario { name, script: script.clone(), requests, ok, min_gaps: min_gaps.clone(), entry: Entry::Download });
+            let slow = min_gaps.iter().flatten().any(|d| !d.is_zero());
+            if ctx.quick() && slow {
+                continue; // the 1 s hints once per quick run
+            }
+            let others = [Entry::ArchiveIndex, Entry::ResumeFromStart];
+            if ctx.quick() {
+                scenarios.push(Scenario { name, script, requests, ok, min_gaps, entry: others[(i + rot) % 2] });
+            } else {
+                for e in others {
+                    scenarios.push(Scenario { name, script: script.clone(), requests, ok, min_gaps: min_gaps.clone(), entry: e });
+                }
+            }
+        }
         let rt = match tokio::runtime::Builder::new_multi_thread().worker_threads(4).enable_all().build() {
             Ok(rt) => rt,
             Err(e) => {
@@ -913,10 +1010,10 @@ mod cdn {
                 return;
             }
         };
-        let body: Vec<u8> = b"cdn-payload-0123456789".to_vec();
+        let body: Vec<u8> = b"cdn-payload-0123456789-cdn-payload-0123456789".to_vec();
         let mut handles = Vec::new();
         for (si, sc) in scenarios.into_iter().enumerate() {
-            let Some(mock) = start_mock(sc.script.iter().map(|x| Step { status: x.status, retry_after: x.retry_after }).collect(), body.clone()) else {
+            let Some(mock) = start_mock(sc.script.clone(), body.clone()) else {
                 ctx.inconclusive("cannot bind loopback mock for the CdnClient section");
                 continue;
             };
@@ -932,12 +1029,20 @@ mod cdn {
                 };
                 let ep = CdnEndpoint { host: format!("127.0.0.1:{}", mock.port), path: "tpr/wow".into(), product_path: None, scheme: Some("http".into()), is_fallback: false, strict: false, max_hosts: None };
                 let mut key = [0u8; 16];
-                key[0] = si as u8 + 1;
+                key[0] = (si % 250) as u8 + 1;
+                key[1] = (si / 250) as u8;
                 key[15] = 0xc1;
-                let r = tokio::time::timeout(Duration::from_secs(60), client.download(&ep, ContentType::Data, &key)).await;
+                let fut = async {
+                    match sc.entry {
+                        Entry::Download => client.download(&ep, ContentType::Data, &key).await,
+                        Entry::ArchiveIndex => client.download_archive_index(&ep, &hex::encode(key)).await,
+                        Entry::ResumeFromStart => client.download_with_resume(&ep, ContentType::Patch, &key, None).await,
+                    }
+                };
+                let r = tokio::time::timeout(Duration::from_secs(60), fut).await;
                 let res = match r {
                     Err(_) => Err("watchdog: download did not return within 60 s".to_string()),
-                    Ok(Ok(data)) => Ok(Some(data == body)),
+                    Ok(Ok(data)) => Ok(Some(if sc.script.last().is_some_and(|a| matches!(a, Act::Status(204, _))) { data.is_empty() } else { data == body })),
                     Ok(Err(_)) => Ok(None),
                 };
                 (sc, mock, res)
@@ -951,32 +1056,40 @@ mod cdn {
             };
             mock.stop.store(true, Ordering::Relaxed);
             let log = mock.log.lock().unwrap_or_else(std::sync::PoisonError::into_inner).clone();
+            let api = format!("CdnClient::{}", if sc.entry == Entry::Download { "download" } else { sc.entry.name() });
             match res {
-                Err(why) => ctx.inconclusive(&format!("CdnClient scenario {}: {why}", sc.name)),
+                Err(why) => ctx.inconclusive(&format!("CdnClient scenario {} via {}: {why}", sc.name, sc.entry.name())),
                 Ok(outcome) => {
-                    ctx.eval_nontrivial(mix64(fnv64(b"cdn"), fnv64(sc.name.as_bytes())));
+                    ctx.eval_nontrivial(mix64(fnv64(b"cdn"), mix64(fnv64(sc.name.as_bytes()), sc.entry as u64)));
                     ctx.obs("cdn.scenarios", 1);
+                    ctx.obs(&format!("cdn.entry_point.{}", sc.entry.name()), 1);
                     ctx.obs("cdn.requests_observed", log.len() as u64);
-                    let detail = json!({"scenario": sc.name, "requests": log.len(), "expected_requests": sc.requests, "outcome": format!("{outcome:?}")});
+                    if sc.script.iter().any(|a| !matches!(a, Act::Status(..))) {
+                        ctx.obs("cdn.scenarios_with_transport_failures", 1);
+                    }
+                    let detail = json!({"scenario": sc.name, "entry_point": sc.entry.name(), "requests": log.len(), "expected_requests": sc.requests, "outcome": format!("{outcome:?}")});
                     if log.len() > 4 {
-                        ctx.violation("C14|CdnClient::download|more-than-max_attempts+1-requests", "more than 4 requests under the default policy (3 retries)", detail.clone());
+                        ctx.violation(&format!("C14|{api}|more-than-max_attempts+1-requests"), "more than 4 requests under the default policy (3 retries)", detail.clone());
                     } else if log.len() > sc.requests {
-                        ctx.violation("C14|CdnClient::download|request-after-stopping-outcome", "request sent after success or after a non-retryable status", detail.clone());
+                        ctx.violation(&format!("C14|{api}|request-after-stopping-outcome"), "request sent after success or after a non-retryable status", detail.clone());
                     } else if log.len() < sc.requests {
-                        ctx.violation("C14|CdnClient::download|gave-up-on-retryable-status-before-retries-exhausted", "a retryable status (5xx/429) was not retried although retries remained", detail.clone());
+                        let what = if sc.script.iter().take(log.len()).any(|a| !matches!(a, Act::Status(..))) { "gave-up-on-transport-failure-before-retries-exhausted" } else { "gave-up-on-retryable-status-before-retries-exhausted" };
+                        ctx.violation(&format!("C14|{api}|{what}"), "a retryable failure (5xx / 429 / connection closed or reset) was not retried although retries remained", detail.clone());
                     }
                     match (sc.ok, outcome) {
                         (true, Some(true)) | (false, None) => {}
-                        (true, Some(false)) => ctx.violation("C14|CdnClient::download|returned-bytes-differ", "download returned other bytes than the 200 body", detail.clone()),
-                        (true, None) => ctx.violation("C14|CdnClient::download|Err-although-stopping-outcome-is-200", "download failed although the stopping response was 200", detail.clone()),
-                        (false, Some(_)) => ctx.violation("C14|CdnClient::download|Ok-although-stopping-outcome-is-an-error", "download succeeded although the stopping response was an error status", detail.clone()),
+                        (true, Some(false)) => ctx.violation(&format!("C14|{api}|returned-bytes-differ"), "download returned other bytes than the 200 body", detail.clone()),
+                        (true, None) => ctx.violation(&format!("C14|{api}|Err-although-stopping-outcome-is-200"), "download failed although the stopping response was 200", detail.clone()),
+                        (false, Some(_)) => ctx.violation(&format!("C14|{api}|Ok-although-stopping-outcome-is-an-error"), "download succeeded although the stopping response was an error status", detail.clone()),
                     }
-                    if let (Some(min), true) = (sc.min_gap0, log.len() >= 2) {
-                        let gap = log[1].duration_since(log[0]);
+                    for (i, min) in sc.min_gaps.iter().enumerate() {
+                        let (Some(min), true) = (min, log.len() >= i + 2) else { continue };
+                        let gap = log[i + 1].duration_since(log[i]);
+                        ctx.obs("cdn.retry_after_gaps_judged", 1);
                         ctx.obs_max("cdn.retry_after_gap_ms", gap.as_millis() as u64);
-                        // the client sleeps after it has received response 0, which is after request 0 arrived
-                        if gap < min {
-                            ctx.violation("C14|CdnClient::download|gap-shorter-than-Retry-After-hint", "retried sooner than the Retry-After header allows", json!({"scenario": sc.name, "gap_ms": gap.as_millis() as u64}));
+                        // the client sleeps after it has received response i, which is after request i arrived
+                        if gap < *min {
+                            ctx.violation(&format!("C14|{api}|gap-shorter-than-Retry-After-hint"), "retried sooner than the Retry-After header allows", json!({"scenario": sc.name, "entry_point": sc.entry.name(), "gap_index": i, "gap_ms": gap.as_millis() as u64}));
                         }
                     }
                 }
@@ -1143,6 +1256,10 @@ fn main() {
     // ---- from_env with hostile environments (child processes)
     env_section(&ctx);
 
+    // ---- every ProtocolError variant (incl. real transport errors) as the failing outcome; hints at the edge of Duration
+    ext::classification_section(&ctx);
+    ext::huge_hint_section(&ctx);
+
     // ---- CdnClient::download status mapping (real time, default policy)
     cdn::section(&ctx);
 
@@ -1155,6 +1272,22 @@ fn main() {
     }
     if ctx.get_obs("from_env.child_processes") == 0 {
         ctx.inconclusive("no from_env child process reported");
+    }
+    if ctx.get_obs("classification.kinds_exercised") < 40 || ctx.get_obs("classification.gaps_measured") == 0 {
+        ctx.inconclusive("the error-classification section exercised fewer than 40 error kinds");
+    }
+    for k in ["Http(connection-refused)", "Http(closed-before-response-head)", "Http(body-cut-off-by-close)", "Http(body-cut-off-by-reset)", "Http(time-out)"] {
+        if ctx.get_obs(&format!("classification.kind_not_produced.{k}")) > 0 {
+            ctx.inconclusive(&format!("transport error kind could not be produced on loopback: {k}"));
+        }
+    }
+    for k in ["cdn.entry_point.download", "cdn.entry_point.download_archive_index", "cdn.entry_point.download_with_resume(None)", "cdn.scenarios_with_transport_failures", "cdn.retry_after_gaps_judged"] {
+        if ctx.get_obs(k) == 0 {
+            ctx.inconclusive(&format!("CdnClient section: never observed: {k}"));
+        }
+    }
+    if ctx.get_obs("huge_hint.executions") == 0 {
+        ctx.inconclusive("the huge-hint section did not run");
     }
     if !ctx.quick() && complete && ctx.get_obs("grid.policies_run") == grid_size as u64 {
         ctx.set_exhaustive(true);
